@@ -9,12 +9,14 @@
 //!   `topp <d|s> <pbits> | <items>`        `TopP::new(p).normalize(false)`
 //!   `sort <d|s> | <items>`                `Sort::new()`
 //!   `# toppn <d|s> <pbits> | <items>`     `TopP::new(p).normalize(true)` (oracle-only)
-//!   `chain <d|s> <spec,spec,…> | <items>` `Chain` (specs: k<k> p<pbits> s m<m>.<r> g<c> t<j>;
+//!   `chain <d|s> <spec,spec,…> | <items>` `Chain` (specs: k<k> p<pbits> s m<m>.<r> g<c> T<temperature bits>;
 //!                                         `e` = empty chain)
 //! A line starting with `# ` is not compared with the model: it either carries a PROPFAIL
 //! (the property's own oracle failed on the implementation's output — kept on a separate line
 //! so that the plain line is still diffed against the model) or is an oracle-only case outside
-//! the model's exact domain (softmax-normalised TopP, arbitrary temperatures, inexact f32 sums).
+//! the model's exact domain (softmax-normalised TopP, inexact f32 sums). Temperatures that are
+//! not 1.0 or an exactly scaling power of two are answered `skip` by the model; NaN / negative
+//! temperatures must panic (`assert!(temperature >= 0.)`), which is an expected outcome.
 //!
 //! Independent oracles evaluated on the implementation's output:
 //!  * TopK: exactly min(k,n) entries, sorted descending by total order, a sub-multiset of the
@@ -115,13 +117,20 @@ impl Spec {
             Spec::Sort => "s".into(),
             Spec::IdMod(m, r) => format!("m{m}.{r}"),
             Spec::IdGe(c) => format!("g{c}"),
-            Spec::Temp(j) => format!("t{j}"),
+            Spec::Temp(j) => format!("T{}", 2f32.powi(*j).to_bits()),
             Spec::TopPNorm(p) => format!("P{p}"),
             Spec::TempAny(t) => format!("T{t}"),
         }
     }
+    /// Does constructing this filter trip `assert!(temperature >= 0.)`?
+    fn invalid_temperature(&self) -> bool {
+        match self {
+            Spec::TempAny(t) => !(f32::from_bits(*t) >= 0.0),
+            _ => false,
+        }
+    }
     fn modelled(&self) -> bool {
-        !matches!(self, Spec::TopPNorm(_) | Spec::TempAny(_))
+        !matches!(self, Spec::TopPNorm(_))
     }
     fn apply(&self, l: Logits, prev: &[u32]) -> Logits {
         match *self {
@@ -233,15 +242,26 @@ fn val64(b: u32) -> f64 {
 }
 
 /// Are all f32 partial sums of the descending-sorted values exact (equal to the f64 sums, which
-/// are exact for the harness's dyadic inputs)?
+/// are exact for the harness's dyadic inputs)?  ±inf / NaN entries follow the IEEE rules in both
+/// precisions, so they are fine as long as the finite partial sums are exact.
 fn sums_exact(sorted: &[Item]) -> bool {
     let mut c32 = 0f32;
     let mut c64 = 0f64;
     for x in sorted {
         c32 += f32::from_bits(x.1);
         c64 += val64(x.1);
+        if c64.is_nan() {
+            // NaN stays NaN in both precisions
+            if !c32.is_nan() {
+                return false;
+            }
+            continue;
+        }
         if !(c32 as f64 == c64) {
-            return false;
+            return false; // rounding, or f32 overflow to inf
+        }
+        if c64.is_infinite() {
+            continue;
         }
         // the f64 sum itself must be exact: all operands are multiples of 2^-40 below 2^12
         if c64.abs() >= 4096.0 || (c64 * (1u64 << 40) as f64).fract() != 0.0 {
@@ -251,7 +271,8 @@ fn sums_exact(sorted: &[Item]) -> bool {
     true
 }
 
-/// Property oracle for TopP without normalisation on finite inputs with exact sums.
+/// Property oracle for TopP without normalisation on inputs with exact sums (any p, scores may
+/// be ±inf / NaN): shortest descending prefix at which the IEEE test `cum < thr` fails.
 fn oracle_topp(pbits: u32, input: &[Item], out: &[Item]) -> Option<String> {
     if !input.is_empty() && out.is_empty() {
         return Some("topp:empty output for non-empty input".into());
@@ -265,7 +286,7 @@ fn oracle_topp(pbits: u32, input: &[Item], out: &[Item]) -> Option<String> {
     let mut kmin = sorted.len();
     for (i, x) in sorted.iter().enumerate() {
         cum += val64(x.1);
-        if cum >= thr {
+        if !(cum < thr) {
             kmin = i + 1;
             break;
         }
@@ -361,7 +382,7 @@ fn oracle_step(spec: &Spec, input: &[Item], out: &[Item]) -> Option<String> {
         Spec::TopK(k) => oracle_topk(*k, input, out),
         Spec::Sort => oracle_sort(input, out),
         Spec::TopP(p) => {
-            if is_finite(*p) && input.iter().all(|x| is_finite(x.1)) && sums_exact(&ref_sort(input)) {
+            if sums_exact(&ref_sort(input)) {
                 oracle_topp(*p, input, out)
             } else {
                 oracle_topp_weak(input, out)
@@ -513,16 +534,21 @@ impl Ctx {
         let spec = Spec::TopP(p);
         let res = hcommon::catch(|| from_logits(&spec.apply(to_logits(xs), &prev)));
         self.classify("topp", xs);
-        let finite = is_finite(p) && xs.iter().all(|x| is_finite(x.1));
-        let exact = finite && sums_exact(&ref_sort(xs));
-        self.out.bucket(if exact {
-            "topp_exact_sums"
-        } else if finite {
-            "topp_inexact_sums(oracle-only)"
+        let finite = xs.iter().all(|x| is_finite(x.1));
+        let exact = sums_exact(&ref_sort(xs));
+        self.out.bucket(if exact { "topp_exact_sums" } else { "topp_inexact_sums(oracle-only)" });
+        if !finite {
+            self.out.bucket(if exact { "topp_nonfinite_scores(compared)" } else { "topp_nonfinite_scores(oracle-only)" });
+        }
+        self.out.bucket(if p == ONE {
+            "topp_p=1"
+        } else if !is_finite(p) || val64(p) > 1.0 || (val64(p) < 0.0) {
+            "topp_p_outside_[0,1]"
+        } else if val64(p) == 0.0 {
+            "topp_p=0"
         } else {
-            "topp_nonfinite(oracle-only)"
+            "topp_0<p<1"
         });
-        self.out.bucket(if p == ONE { "topp_p=1" } else if val64(p) <= 0.0 { "topp_p<=0" } else { "topp_0<p<1" });
         let (ans, fail) = match res {
             Ok(o) => {
                 let f = oracle_step(&spec, xs, &o);
@@ -541,7 +567,7 @@ impl Ctx {
             }
         };
         // inexact finite sums: the Lean model would compute the exact sum, so do not compare
-        self.emit(&req, &ans, fail, exact || !finite, xs.len() >= 2);
+        self.emit(&req, &ans, fail, exact, xs.len() >= 2);
     }
 
     /// `TopP::new(p).normalize(true)` (softmax inside): outside the Lean model, checked against
@@ -595,9 +621,15 @@ impl Ctx {
         // the composition of the individually constructed filters, with per-step oracles
         let mut cur: Result<Vec<Item>, String> = Ok(xs.to_vec());
         let mut step_fail: Option<String> = None;
+        let mut topp_inexact = false;
         for (i, s) in specs.iter().enumerate() {
             if let Ok(v) = &cur {
                 let input = v.clone();
+                if let Spec::TopP(_) = s {
+                    if !sums_exact(&ref_sort(&input)) {
+                        topp_inexact = true;
+                    }
+                }
                 let r = hcommon::catch(|| from_logits(&s.apply(to_logits(&input), &prev)));
                 if let Ok(o) = &r {
                     if step_fail.is_none() {
@@ -609,7 +641,9 @@ impl Ctx {
         }
         self.classify("chain", xs);
         self.out.bucket(&format!("chain_len_{}", specs.len().min(6)));
-        let modelled = specs.iter().all(|s| s.modelled());
+        // a TopP step whose f32 sums round is outside the exact model
+        let modelled = specs.iter().all(|s| s.modelled()) && !topp_inexact;
+        let bad_temp = specs.iter().any(|s| s.invalid_temperature());
         if !modelled {
             self.out.bucket("chain_unmodelled(oracle-only)");
         }
@@ -621,6 +655,11 @@ impl Ctx {
                     step_fail
                 };
                 (show_items(o), f)
+            }
+            (Err(_), Err(_)) if bad_temp => {
+                // documented constructor contract: `assert!(temperature >= 0.)` in Temperature::new
+                self.out.bucket("outcome_panic_temperature_assert(expected)");
+                ("panic".to_string(), None)
             }
             (Err(msg), Err(_)) => {
                 self.out.bucket("outcome_panic");
@@ -842,7 +881,7 @@ fn rand_p(rng: &mut Rng, xs: &[Item]) -> u32 {
 }
 
 fn rand_spec(rng: &mut Rng, xs_len: usize, modelled_only: bool) -> Spec {
-    let top = if modelled_only { 8 } else { 10 };
+    let top = if modelled_only { 9 } else { 10 };
     match rng.below(top) {
         0 | 1 => Spec::TopK(rand_k(rng, xs_len)),
         2 => Spec::TopP(*rng.pick(&[P0, ONE, 0x3f00_0000, 0x3f40_0000, 0x3e80_0000, 0x3f7f_ffff, 0x0080_0000])),
@@ -854,8 +893,12 @@ fn rand_spec(rng: &mut Rng, xs_len: usize, modelled_only: bool) -> Spec {
         5 => Spec::IdGe(rng.below(12) as u32),
         6 => Spec::Temp(rng.range_i64(-3, 3) as i32),
         7 => Spec::TopK(1 + rng.usize_below(4)),
-        8 => Spec::TopPNorm(*rng.pick(&[P0, ONE, 0x3f00_0000, 0x3f66_6666, 0x3f7f_ffff])),
-        _ => Spec::TempAny(*rng.pick(&[0x3f00_0000u32, 0x3fc0_0000, 0x3e99_999a, 0x4120_0000, ONE, P0])),
+        9 => Spec::TopPNorm(*rng.pick(&[P0, ONE, 0x3f00_0000, 0x3f66_6666, 0x3f7f_ffff])),
+        _ => Spec::TempAny(*rng.pick(&[
+            0x3f00_0000u32, 0x3fc0_0000, 0x3e99_999a, 0x4120_0000, ONE, P0, N0, PINF, 0x7e80_0000, 0x0100_0000,
+            // NaN / negative: Temperature::new panics
+            0xbf80_0000, QNAN, NQNAN, NINF, 0x8000_0001,
+        ])),
     }
 }
 
@@ -964,6 +1007,24 @@ fn run(args: &Args) {
         cx.topp(p, &xs);
     }
 
+    // (4b) TopP with ±inf / NaN entries among dyadic probabilities (IEEE rules for the running
+    // sum; compared with the model) and with thresholds outside [0, 1] (NaN, ±inf, negative, > 1)
+    for _ in 0..6_000 * scale {
+        let mut xs = rand_probs(&mut rng);
+        if !xs.is_empty() && rng.chance(3, 4) {
+            for _ in 0..1 + rng.usize_below(2) {
+                let i = rng.usize_below(xs.len());
+                xs[i].1 = *rng.pick(&[PINF, NINF, NINF, QNAN, NQNAN, 0x7f80_0001, PINF]);
+            }
+        }
+        let p = if rng.chance(1, 3) {
+            *rng.pick(&[QNAN, NQNAN, PINF, NINF, 0xbf00_0000, 0x4000_0000, 0x3fc0_0000, N0])
+        } else {
+            rand_p(&mut rng, &xs)
+        };
+        cx.topp(p, &xs);
+    }
+
     // (5) Sort
     for _ in 0..2_000 * scale {
         let xs = rand_items(&mut rng);
@@ -1010,8 +1071,8 @@ fn run(args: &Args) {
          one-hot probes at every position for lengths around 8/16/32 lanes; random vectors (6 value modes incl. arbitrary bit \
          patterns, ascending/descending/unsorted, dense/sparse/duplicate ids, lengths 0..71 biased to lane boundaries) with \
          k in {0, small, n, n+1..n+3, huge}. TopP: dyadic probabilities (exact f32 sums, checked) with p in {0, subnormal, \
-         MIN_POSITIVE, partial sums ±1ulp, 1-ulp, 1, random}; arbitrary inputs as oracle-only. Sort, and random chains of \
-         TopK/TopP/Sort/token_id_filter/Temperature(2^j) (plus oracle-only chains with softmax TopP and arbitrary \
-         temperatures). non-trivial = at least 2 candidates and k>=1 (TopK) / at least 2 filters (Chain); distinct by request text",
+         MIN_POSITIVE, partial sums ±1ulp, 1-ulp, 1, random}, the same with ±inf/NaN entries and with p outside [0,1] (NaN, ±inf, negative, >1), all compared with the model; arbitrary inputs with rounding sums as oracle-only. Sort, and random chains of \
+         TopK/TopP/Sort/token_id_filter/Temperature (powers of two and 1.0 compared, NaN/negative must panic, other \
+         temperatures skipped by the model; plus oracle-only chains with softmax TopP). non-trivial = at least 2 candidates and k>=1 (TopK) / at least 2 filters (Chain); distinct by request text",
     );
 }
